@@ -7,6 +7,11 @@ package body
 
 // Multipart answers: the closing delimiter is written (Writer.Close) before the body's length and bytes are taken.
 //@ ghost var mpClosed bool
+// rgStart / rgEnd / rgPair: first and last position of the range parsed last, and whether both were parsed
+//@ ghost var rgStart int
+//@ ghost var rgEnd int
+//@ ghost var rgPair bool
+//@ ghost var rgSize int
 //@ extern func multipart.NewWriter
 //@   modifies mpClosed
 //@   ensures !mpClosed && result != nil
@@ -15,6 +20,13 @@ package body
 //@   ensures mpClosed
 //@ func (*Modifier).ModifyResponse
 //@   serves C20
+//@   at call 0 of HasSuffix before assert[the-open-ended-test-looks-at-the-range-being-parsed] arg0 == rng
+//@   at call 1 of Split after set rgPair = false
+//@   at call 0 of Atoi before set rgSize = len(m.body)
+//@   at call 0 of Atoi after set rgStart = result0
+//@   at call 1 of Atoi after set rgEnd = result0
+//@   at call 1 of Atoi after set rgPair = (result1 == nil)
+//@   at return all before assert[416-only-for-an-unsatisfiable-range] res.StatusCode == 416 && old(res.StatusCode) != 416 && rgPair ==> rgStart > rgEnd || rgStart < 0 || rgStart >= rgSize
 //@   at call 0 of Bytes before assert[multipart-body-is-complete-before-its-length-is-taken] mpClosed
 //@   at call 1 of Bytes before assert[multipart-body-is-complete-before-its-bytes-are-taken] mpClosed
 //@   safe index slice make div assert
